@@ -312,7 +312,7 @@ def write_dim_file(path, fmt, orient, header, name, items, sheets):
         return "the dims"
 
 
-ITEM_LISTS = {int: [[2005], [2001, 1999], [3, 1, 2], [2020, 2030, 2025]], str: [["only"], ["b", "a"], ["x y", "z", "w"], ["10", "9", "8"]]}
+ITEM_LISTS = {int: [[2005], [2001, 1999], [3, 1, 2], [2020, 2030, 2025], [7, 2000, 5]], str: [["only"], ["b", "a"], ["x y", "z", "w"], ["10", "9", "8"], ["steel", "316", "copper"]]}  # last str list: a text item first, then a number-like one
 
 
 def run_dimfile_case(fmt, orient, header, dtype_name, li, sheets):
@@ -515,7 +515,7 @@ def run_unit(u):
     elif k == "dimfiles":
         for header in (False, True):
             for dt in ("int", "str"):
-                for li in range(4):
+                for li in range(5):
                     for sheets in (("single",) if u["fmt"] == "csv" else ("single", "first-of-several", "named-second")):
                         rec(*run_dimfile_case(u["fmt"], u["orient"], header, dt, li, sheets))
         if u["fmt"] == "excel" and u["orient"] == "row":
